@@ -166,6 +166,7 @@ class FakeSerial:
         self.chunks: collections.deque[bytes] = collections.deque()
         self.written: list[bytes] = []
         self.reads = 0
+        self.die_next = False  # the next read() raises SerialException (the port died)
 
     def fileno(self) -> int:
         return self.a.fileno()
@@ -181,6 +182,13 @@ class FakeSerial:
             self.a.recv(1)
         except BlockingIOError:
             pass
+        if self.die_next:
+            from serial import SerialException
+
+            self.die_next = False
+            if self.chunks:
+                self.chunks.popleft()
+            raise SerialException("device reports readiness to read but returned no data (device disconnected?)")
         return self.chunks.popleft() if self.chunks else b""
 
     def write(self, data: bytes) -> int:
@@ -311,8 +319,18 @@ LIFE_FRAMES = {"other": " I --- 01:145038 --:------ 01:145038 1F09 003 FF073F",
                "foreignsig": " I --- 18:222222 63:262142 --:------ 7FFF 014 0001966A1C9A8F7631302E332E31"}
 
 
+LIFE_OTHER_EXC: list[str] = []  # loop exceptions seen by run_life that did not come out of the receive path (notes only)
+
+
 async def run_life(steps: list[list], sending: bool = True) -> dict:
-    """One schedule on a fresh real PortTransport (FakeSerial, virtual time).  steps: ["rx", kind] | ["sleep", secs].
+    """One schedule on the real PortTransport(s) of ONE real PortProtocol (QoS context included, as a Gateway uses it;
+    FakeSerial, virtual time).  steps: ["rx", kind] | ["sleep", secs] | ["lose", "close" | "die"] | ["reopen"].
+      lose    the transport the protocol has been told about is closed by the application / its port dies (a
+              SerialException out of serial.read()); skipped while connection_made has not run (the discipline of
+              spec/TransportLife!Lose).  The reader is removed then (what SerialTransport._close would do).
+      reopen  the same protocol object is handed to a new PortTransport on a new port (a re-connect)
+    Everything that leaves protocol.pkt_received, and everything that reaches the loop's exception handler out of
+    PortTransport._read_ready, is recorded as an "exc" event - in every phase.  Nothing is judged here.
     Returns the item for TransportLifeTrace.  Must run inside a VLoop."""
     import ramses_tx.transport as tr
     from ramses_tx.const import SZ_ACTIVE_HGI
@@ -322,44 +340,128 @@ async def run_life(steps: list[list], sending: bool = True) -> dict:
     _VCLOCK["loop"] = loop
     tr.is_hgi80 = lambda name: False  # type: ignore[assignment]
     evs: list[dict] = []
+
+    def E(e: str, k: str = "", mro: list[str] | None = None) -> None:
+        if not evs or evs[-1]["e"] != "end":      # the harness's own tear-down is not part of the execution
+            evs.append({"e": e, "k": k, "mro": mro or []})
+
     proto = PortProtocol(lambda msg: None, disable_qos=False)
     kind_of: dict[str, str] = {v: k for k, v in LIFE_FRAMES.items()}
-    real_rx, real_made = proto.pkt_received, proto.connection_made
+    real_rx, real_made, real_lost = proto.pkt_received, proto.connection_made, proto.connection_lost
+    seen_errs: list[BaseException] = []   # kept alive: identity is how an escape is told from its echo in loop.exc
+    st = {"made": False, "closed": False, "n_exc": len(loop.exc)}
+
+    def gid_of(transport) -> str:  # noqa: ANN001
+        gid = transport.get_extra_info(SZ_ACTIVE_HGI)
+        return "none" if gid is None else "gwy" if gid == PortRig.GWY else "foreign" if gid == "18:222222" else str(gid)
 
     def pkt_received(pkt):  # noqa: ANN001, ANN202
-        evs.append({"e": "pkt", "k": kind_of.get(str(pkt._frame), "?")})
-        return real_rx(pkt)
+        E("pkt", kind_of.get(str(pkt._frame), "?"))
+        try:
+            return real_rx(pkt)
+        except Exception as err:  # noqa: BLE001 - recorded and re-raised unchanged (TLC judges the type)
+            seen_errs.append(err)
+            E("exc", exc_sig(err), mro_names(err))
+            raise
 
     def connection_made(transport, ramses=False):  # noqa: ANN001, ANN202
         if not ramses:    # the call serial_asyncio's base class makes by itself: the protocol ignores it
             return real_made(transport, ramses=ramses)
-        gid = transport.get_extra_info(SZ_ACTIVE_HGI)
-        evs.append({"e": "made", "k": "none" if gid is None else "gwy" if gid == PortRig.GWY else "foreign" if gid == "18:222222" else str(gid)})
+        E("made", gid_of(transport))
+        st["made"] = True
         return real_made(transport, ramses=ramses)
+
+    def connection_lost(err):  # noqa: ANN001, ANN202
+        E("lost")
+        return real_lost(err)
 
     proto.pkt_received = pkt_received  # type: ignore[method-assign]
     proto.connection_made = connection_made  # type: ignore[method-assign]
-    ser = FakeSerial()
-    n_written = [0]
-    real_write = ser.write
+    proto.connection_lost = connection_lost  # type: ignore[method-assign]
 
-    def write(data: bytes) -> int:
-        if b" 7FFF " in data:
-            evs.append({"e": "sig", "k": ""})
-            n_written[0] += 1
-            kind_of.setdefault(data.decode().rstrip("\r\n").replace("18:000730", PortRig.GWY, 1), "sigecho")
-        return real_write(data)
-
-    ser.write = write  # type: ignore[method-assign]
-    t = tr.PortTransport(ser, proto, disable_sending=not sending, loop=loop)
-    try:
-        for _ in range(4):
-            await asyncio.sleep(0)
-        for st in steps:
-            if st[0] == "sleep":
-                await asyncio.sleep(float(st[1]))
+    def collect() -> None:
+        """Loop-handler contexts since the last call: those raised out of _read_ready are receive-path escapes."""
+        while st["n_exc"] < len(loop.exc):
+            ctx = loop.exc[st["n_exc"]]
+            st["n_exc"] += 1
+            if is_stray(ctx):
                 continue
-            kind = st[1]
+            err = ctx.get("exception")
+            if err is not None and any(err is x for x in seen_errs):
+                continue    # already recorded where it left pkt_received
+            names = [f.name for f in traceback.extract_tb(err.__traceback__)] if err is not None else []
+            if "_read_ready" in names:
+                E("exc", exc_sig(err), mro_names(err))
+            else:
+                LIFE_OTHER_EXC.append(f"{ctx.get('message')}: {err!r}"[:200])
+
+    def open_port():  # noqa: ANN202
+        ser = FakeSerial()
+        real_write = ser.write
+
+        def write(data: bytes) -> int:
+            if b" 7FFF " in data:
+                E("sig")
+                kind_of.setdefault(data.decode().rstrip("\r\n").replace("18:000730", PortRig.GWY, 1), "sigecho")
+            return real_write(data)
+
+        ser.write = write  # type: ignore[method-assign]
+        st["made"] = st["closed"] = False
+        return ser, tr.PortTransport(ser, proto, disable_sending=not sending, loop=loop)
+
+    def unplug(ser) -> None:  # noqa: ANN001
+        try:
+            loop.remove_reader(ser.fileno())
+        except (OSError, ValueError):
+            pass
+        ser.close()
+
+    async def spin(n: int) -> None:
+        for _ in range(n):
+            await asyncio.sleep(0)
+
+    ser, t = open_port()
+    try:
+        await spin(4)
+        for step in steps:
+            if step[0] == "sleep":
+                await asyncio.sleep(float(step[1]))
+                collect()
+                continue
+            if step[0] == "lose":
+                if not st["made"] or st["closed"]:
+                    continue   # out of discipline: nothing to lose (yet)
+                E("close", step[1])
+                if step[1] == "die":
+                    before = ser.reads
+                    ser.die_next = True
+                    ser.feed(b"")
+                    for _ in range(8):
+                        await asyncio.sleep(0)
+                        if ser.reads > before:
+                            break
+                else:
+                    t.close()
+                st["closed"] = True
+                await spin(6)
+                unplug(ser)
+                try:  # what a client does (and it retrieves the cause, if any, from the protocol's future)
+                    await proto.wait_for_connection_lost(timeout=1)
+                except Exception:  # noqa: BLE001 - the cause of the loss, handed back to the client
+                    pass
+                collect()
+                continue
+            if step[0] == "reopen":
+                if not st["closed"]:
+                    continue
+                E("open")
+                ser, t = open_port()
+                await spin(4)
+                collect()
+                continue
+            kind = step[1]
+            if st["closed"]:
+                continue   # nothing reads a port that has been unplugged
             if kind == "sigecho":
                 sigs = [w for w in ser.written if b" 7FFF " in w]
                 if not sigs:
@@ -367,29 +469,24 @@ async def run_life(steps: list[list], sending: bool = True) -> dict:
                 frame = sigs[0].decode().rstrip("\r\n").replace("18:000730", PortRig.GWY, 1)
             else:
                 frame = LIFE_FRAMES[kind]
-            evs.append({"e": "rx", "k": kind})
+            E("rx", kind)
             before = ser.reads
             ser.feed(f"045 {frame}\r\n".encode())
             for _ in range(8):
                 await asyncio.sleep(0)
                 if ser.reads > before:
                     break
-            for _ in range(4):
-                await asyncio.sleep(0)
+            await spin(4)
+            collect()
         await asyncio.sleep(3.0)
-        for _ in range(6):
-            await asyncio.sleep(0)
-        gid = t.get_extra_info(SZ_ACTIVE_HGI)
-        evs.append({"e": "end", "k": "none" if gid is None else "gwy" if gid == PortRig.GWY else "foreign" if gid == "18:222222" else str(gid)})
+        await spin(6)
+        collect()
+        E("end", gid_of(t))
     finally:
         try:
             t.close()
         finally:
-            try:
-                loop.remove_reader(ser.fileno())
-            except (OSError, ValueError):
-                pass
-            ser.close()
+            unplug(ser)
     return {"maxtrys": int(tr._SIGNATURE_MAX_TRYS), "sending": int(sending), "ev": evs}
 
 
@@ -448,7 +545,61 @@ def life_schedules(full: bool) -> list[tuple[list[list], bool]]:
                 out.append((pre + [["sleep", g], ["rx", "foreignsig"], ["rx", "sigecho"], ["rx", "sigecho"]] + post, True))
         out.append(([["sleep", g], ["rx", "other"], ["rx", "other"]], True))          # the echo never comes
         out.append(([["rx", "other"], ["sleep", g], ["rx", "foreignsig"], ["rx", "other"]], False))  # read-only
+    # the life cycle (TransportLife!Lose / Reopen): the protocol is connected (by the echo / after the transport gave up),
+    # loses its transport (closed by the application / the port dies), and is handed a new one - on which traffic
+    # arrives before, between and after the new signature writes, the echo in time, late or never
+    other, fsig = ["rx", "other"], ["rx", "foreignsig"]
+    firsts = [[["sleep", 0.02], ["rx", "sigecho"], other, ["sleep", 0.2]], [other, ["sleep", 2.5]]]
+    gaps2 = [0.0, 0.02, 0.049, 0.051, 0.12, 1.99, 2.5] if full else [0.0, 0.02, 0.12, 2.5]
+    for how in ("close", "die"):
+        for first in firsts:
+            again = first + [["lose", how], ["reopen"]]
+            for pre in ([], [other], [fsig], [other, fsig]):
+                for g in gaps2:
+                    for post in ([], [other]):
+                        out.append((again + pre + [["sleep", g], ["rx", "sigecho"]] + post, True))
+            out.append((again + [other, ["sleep", 1.0], other], True))                      # the echo never comes
+            out.append((first + [["lose", how], ["sleep", 1.0]], True))                     # lost for good
+            third = again + [other, ["sleep", 0.02], ["rx", "sigecho"], other, ["sleep", 0.2], ["lose", how], ["reopen"]]
+            for pre in ([], [other]) + (([fsig], [other, fsig]) if full else ()):
+                out.append((third + pre + [["sleep", 0.02], ["rx", "sigecho"], other], True))  # lost and re-connected twice
+        out.append(([other, ["sleep", 0.1], ["lose", how], ["reopen"], other, fsig, ["sleep", 0.1], other], False))  # read-only
     return out
+
+
+# --------------------------------------------------------------------------------------
+# gateway chatter ("gateway chatter never prevent[s] the lines that follow ... from being decoded and delivered")
+
+CHATTER_LEADS = ("#", "!", "*")
+CHATTER_TOKENS = ("evofw3", "0.7.1", "0.7.1-beta", "0.7", "v1", "", "\u00b5", "x" * 120)
+
+
+def chatter_family(full: bool) -> list[tuple[str, int]]:
+    """[(line, number of tokens)]: what a serial gateway says for itself rather than relays (evofw3: '# evofw3 0.7.1' at boot and in reply to !V,
+    '!C ...' echoes of commands, '* ...' diagnostics), generated systematically instead of quoted from one firmware:
+    lead x {no space, space} x every sequence of 0..2 tokens (0..3 in the thorough tier) over the token alphabet (a name, dotted
+    versions - numeric, with a suffix, short -, a word, the empty token = doubled / trailing blanks, a non-ASCII
+    character, a very long word), plus, for 3..5 tokens, every (position, token) pair over a rotating filler."""
+    import itertools
+
+    T = CHATTER_TOKENS
+    seqs: list[tuple[str, ...]] = []
+    for n in range(0, 4 if full else 3):
+        seqs += list(itertools.product(T, repeat=n))
+    for n in range(4 if full else 3, 6):
+        for pos in range(n):
+            for ti, tok in enumerate(T):
+                seqs.append(tuple(tok if j == pos else T[(ti + j + n) % len(T)] for j in range(n)))
+    out: dict[str, int] = {}
+    for lead in CHATTER_LEADS:
+        for sep in ("", " "):
+            for sq in seqs:
+                out.setdefault(lead + sep + " ".join(sq), len(sq))
+    return list(out.items())
+
+
+def chatter_lines(full: bool) -> list[str]:
+    return [ln for ln, _n in chatter_family(full)]
 
 
 # --------------------------------------------------------------------------------------
